@@ -39,7 +39,13 @@ func (l linearInterpolator) interpolate(frac float64) Point {
 	if idx-1 >= 0 {
 		partial -= l.cumulative[idx-1]
 	}
-	partial /= p0.XY.distanceTo(p1.XY)
+	if segLen := p0.XY.distanceTo(p1.XY); segLen > 0 {
+		partial /= segLen
+	} else {
+		// The segment has zero length (repeated control points), so any
+		// position along it is the same. Avoid the 0/0 division.
+		partial = 0
+	}
 
 	return interpolateCoords(p0, p1, partial).AsPoint()
 }
